@@ -206,7 +206,11 @@ func c05Grid(r *rand.Rand, extra int) []CmpVal {
 	}
 	for _, s := range []string{"1", "1.0", "1e0", "10e-1", "0.1e1", "001", "1.00000000000000000000000000000000", "0", "0.0", "0e5", "-1", "-1.0", "2", "0.3", ".3", "0.30", "3e-1",
 		"0.9999999999999999999999999999999999", "1.000000000000000000000000000000001", "9999999999999999999999999999999999", "9999999999999999999999999999999998",
-		"1e34", "1e-30", "-1e-30", "1e-6200", "2e-6200", "1e-7000", "1e-6999", "1e-6143", "1e-6176", "9e-6177", "1e6100", "9e6099", "1.5e6000", "1e6144", "1e-6100", "0e-7000", "123456789012345678", "123456789012345679", "9007199254740993", "9007199254740992", "100", "1e2", "99.99", "-0.5", "12.5", "0.1", "0.2"} {
+		"1e34", "1e-30", "-1e-30",
+		// wider than the 34 digits of the arithmetic context: literals (and data decimals below) are exact at any width
+		"1000000000000000000000000000000000000", "1000000000000000000000000000000000001", "1234567890123456789012345678901234567890", "1234567890123456789012345678901234567891",
+		"0.1234567890123456789012345678901234567890", "0.1234567890123456789012345678901234567891", "99999999999999999999999999999999999", "100000000000000000000000000000000000",
+		"1e-6200", "2e-6200", "1e-7000", "1e-6999", "1e-6143", "1e-6176", "9e-6177", "1e6100", "9e6099", "1.5e6000", "1e6144", "1e-6100", "0e-7000", "123456789012345678", "123456789012345679", "9007199254740993", "9007199254740992", "100", "1e2", "99.99", "-0.5", "12.5", "0.1", "0.2"} {
 		lit(s)
 	}
 	ar := func(op, a, b string) {
@@ -240,6 +244,9 @@ func c05Grid(r *rand.Rand, extra int) []CmpVal {
 	dn("dfneg0", val.F64(-0.0*1), "0")
 	dn("dd1", val.Dec("1.000"), "1")
 	dn("df125", val.F64(12.5), "12.5")
+	dn("dwide1", val.Dec("1234567890123456789012345678901234567890"), "1234567890123456789012345678901234567890")
+	dn("dwide2", val.Dec("1234567890123456789012345678901234567891"), "1234567890123456789012345678901234567891")
+	dn("dwide3", val.Dec("1000000000000000000000000000000000000.5"), "1000000000000000000000000000000000000.5")
 	// strings
 	for _, s := range []string{"", "a", "ab", "abc", "b", "B", "é", "中", "az", "aé", "0", "1", "10", "9", "1.0", " ", "a ", "true", "null",
 		"\U0001F600", "\uff0c", "\ue000", "\U00020000", "\ufffd", "a\U0001F600", "a\uff0c", "\xff", "\xc3", "a\xff", "\U0010FFFF", "\uffff", "\ud7ff"} {
@@ -290,8 +297,12 @@ func runC05(w *core.W) {
 	// random pairs beyond the grid: close neighbours and different spellings of one value
 	for i, n := 0, w.Pick(20000, 240000); i < n; i++ {
 		d := digits(r, 1+r.Intn(34))
+		if i%9 == 0 {
+			d = digits(r, 35+r.Intn(12)) // wider than the arithmetic context
+		}
 		e := r.Intn(41) - 20
-		a := &AExpr{Lit: spell(r, r.Intn(2) == 0, d, e)}
+		// (a wide number is written without a sign: `-x` is an arithmetic operation and rounds to 34 digits)
+		a := &AExpr{Lit: spell(r, r.Intn(2) == 0 && len(d) <= 34, d, e)}
 		var b *AExpr
 		switch i % 4 {
 		case 0:
